@@ -32,7 +32,9 @@ type Op struct {
 }
 
 type Case struct {
-	Ops []Op `json:"ops"`
+	// Start: the section settings of the opened document of another producer; nil = document.New()
+	Start *Start `json:"start,omitempty"`
+	Ops   []Op   `json:"ops"`
 }
 
 var sizes = []document.PageSize{document.PageSizeA4, document.PageSizeLetter, document.PageSizeLegal, document.PageSizeA3, document.PageSizeA5}
@@ -80,8 +82,11 @@ func customPair(t *rapid.T) (float64, float64, string) {
 }
 
 func genCase(t *rapid.T) Case {
-	n := rapid.IntRange(1, 25).Draw(t, "n")
 	var c Case
+	if chance(t, "start", 4, 10) {
+		c.Start = genStart(t)
+	}
+	n := rapid.IntRange(1, 25).Draw(t, "n")
 	for i := 0; i < n; i++ {
 		k := rapid.SampledFrom([]string{"settings", "settings", "size", "size", "custom", "custom", "custom", "orient", "orient", "orient", "margins", "margins", "hfdist", "gutter", "grid", "cleargrid", "nil", "reopen", "reopen", "para"}).Draw(t, "k")
 		o := Op{K: k}
@@ -137,6 +142,13 @@ type model struct {
 	Grid        string
 	LP, CS      int
 	Touched     bool // some page-setting call succeeded
+	// Silent: the history started from a file whose orientation the statement is silent about (wide page without
+	// w:orient, w:orient contradicting the dimensions) and no call has named the size yet. How such a page is to be
+	// reported is not stated, only that calls which do not name it leave the report alone: the size report of the
+	// first read (Seen*) must stay, and the physical page (W, H, Landscape -> w:pgSz) is judged in the saved part.
+	Silent       bool
+	SeenSize     document.PageSize
+	SeenW, SeenH float64
 }
 
 func defaults() model {
@@ -160,10 +172,14 @@ func (m model) check(res *kit.Result, got *document.PageSettings, where string) 
 	tol := 1.001 * twip
 	res.Eval("C12.S2")
 	bad := func(what string, g, w interface{}) {
-		res.Fail("C12.S2", "%s: %s reads back %v, the most recent call set %v", where, what, g, w)
+		res.Fail("C12.S2", "[attr="+strings.Fields(what)[0]+"] %s: %s reads back %v, the model (most recent call that named it, else the opened file's value, else the default) has %v", where, what, g, w)
 	}
 	// size
-	if m.Predef != "" {
+	if m.Silent {
+		if got.Size != m.SeenSize || !near(got.CustomWidth, m.SeenW, tol) || !near(got.CustomHeight, m.SeenH, tol) {
+			bad("Size (report of the opened file's page, which no call has named)", fmt.Sprintf("%s %.3fx%.3f", got.Size, got.CustomWidth, got.CustomHeight), fmt.Sprintf("%s %.3fx%.3f as first read", m.SeenSize, m.SeenW, m.SeenH))
+		}
+	} else if m.Predef != "" {
 		if got.Size != m.Predef {
 			bad("Size", got.Size, m.Predef)
 		}
@@ -176,7 +192,7 @@ func (m model) check(res *kit.Result, got *document.PageSettings, where string) 
 				sizeTol = 1 + tol
 			}
 			if !near(got.CustomWidth, m.W, sizeTol) || !near(got.CustomHeight, m.H, sizeTol) {
-				bad("custom size", fmt.Sprintf("%.3fx%.3f", got.CustomWidth, got.CustomHeight), fmt.Sprintf("%.3fx%.3f", m.W, m.H))
+				bad("Size (custom dimensions)", fmt.Sprintf("%.3fx%.3f", got.CustomWidth, got.CustomHeight), fmt.Sprintf("%.3fx%.3f", m.W, m.H))
 			}
 		case isNear && got.Size == std:
 			// reported as the standard size within the documented 1 mm tolerance
@@ -269,7 +285,7 @@ func (m model) checkXML(res *kit.Result, doc *document.Document, where string) {
 		}{{"top", m.M[0]}, {"right", m.M[1]}, {"bottom", m.M[2]}, {"left", m.M[3]}, {"header", m.Hd}, {"footer", m.Fd}, {"gutter", m.Gut}} {
 			v, _ := strconv.ParseFloat(mar.A(canon.W, p.a), 64)
 			if math.Abs(v-p.w/twip) > 1.001 {
-				res.Fail("C12.S3", "%s: w:pgMar/@w:%s is %v twips, model %.3f mm = %.1f twips", where, p.a, v, p.w, p.w/twip)
+				res.Fail("C12.S3", "[attr=%s] %s: w:pgMar/@w:%s is %v twips, model %.3f mm = %.1f twips", marField[p.a], where, p.a, v, p.w, p.w/twip)
 			}
 		}
 	}
@@ -303,6 +319,102 @@ func run(c Case) *kit.Result {
 	m := defaults()
 	okOps, rejected, reopens := 0, 0, 0
 	var shape []string
+	// settle decides after a judged step whether the history ends here (true). Failures that belong to an open
+	// finding confined to single attributes do not end it: the model takes the library's value of those attributes
+	// and the rest of the history is judged as usual.
+	settle := func(n0 int, got *document.PageSettings) bool {
+		if len(res.Failures) == n0 {
+			return false
+		}
+		for _, f := range res.Failures[n0:] {
+			if !resyncable(c, f) {
+				return true
+			}
+		}
+		for _, f := range res.Failures[n0:] {
+			switch failAttr(f) {
+			case "MarginTop":
+				m.M[0] = got.MarginTop
+			case "MarginRight":
+				m.M[1] = got.MarginRight
+			case "MarginBottom":
+				m.M[2] = got.MarginBottom
+			case "MarginLeft":
+				m.M[3] = got.MarginLeft
+			case "HeaderDistance":
+				m.Hd = got.HeaderDistance
+			case "FooterDistance":
+				m.Fd = got.FooterDistance
+			case "DocGridCharSpace":
+				m.CS = got.DocGridCharSpace
+			}
+		}
+		res.Count("resynced-after-open-finding", 1)
+		return false
+	}
+	if c.Start != nil {
+		if msg := c.Start.valid(); msg != "" {
+			res.Label("start:invalid-description")
+			res.Shape = "invalid-description"
+			return res
+		}
+		var err error
+		if p, st := kit.Try(func() { doc, err = c.Start.open() }); p != nil {
+			res.Fail("C12.S0", "opening the document of another producer panicked: %v [%s]", p, st)
+			return res
+		}
+		if err != nil {
+			res.Fail("C12.S0", "opening the document of another producer failed: %v", err)
+			return res
+		}
+		var got *document.PageSettings
+		if p, st := kit.Try(func() { got = doc.GetPageSettings() }); p != nil {
+			res.Fail("C12.S0", "GetPageSettings on the opened document panicked: %v [%s]", p, st)
+			return res
+		}
+		var ambiguous bool
+		m, ambiguous = c.Start.model()
+		res.Label("start:foreign")
+		cls := "plain"
+		switch {
+		case c.Start.wideNoOrient():
+			cls = "wide-no-orient"
+		case c.Start.contradicts():
+			cls = "orient-contradicts"
+		case find(c.Start.Sect, "pgSz") == nil:
+			cls = "no-pgSz"
+		}
+		res.Label("start:" + cls)
+		if len(c.Start.marAbsent()) > 0 {
+			res.Label("start:pgMar-partial")
+		}
+		if !c.Start.NoSect && find(c.Start.Sect, "pgMar") == nil {
+			res.Label("start:no-pgMar")
+		}
+		if g := find(c.Start.Sect, "docGrid"); g == nil {
+			res.Label("start:no-docGrid")
+		} else if _, ok := g.attr("type"); !ok {
+			res.Label("start:docGrid-without-type")
+		}
+		if c.Start.HasPara {
+			res.Label("start:two-sections")
+		}
+		if ambiguous {
+			// the statement does not say what the orientation of this page is: adopt what the library reports
+			if got.Orientation != document.OrientationPortrait && got.Orientation != document.OrientationLandscape {
+				res.Fail("C12.S2", "after open: Orientation reads back %q, neither portrait nor landscape", got.Orientation)
+				return res
+			}
+			m = m.adopt(got.Orientation == document.OrientationLandscape)
+			m.Silent, m.SeenSize, m.SeenW, m.SeenH = true, got.Size, got.CustomWidth, got.CustomHeight
+		}
+		shape = append(shape, "open:"+cls)
+		// the empty history: every attribute the file carries reads back as written, the others as the defaults
+		m.check(res, got, "after open")
+		if settle(0, got) {
+			return res
+		}
+	}
 	sawCustomLandscape := false
 	for i, op := range c.Ops {
 		where := fmt.Sprintf("after op %d %s", i, op.K)
@@ -334,6 +446,7 @@ func run(c Case) *kit.Result {
 			if op.S[2] == "" {
 				either = valid
 			}
+			nm.Silent = false
 			if op.S[0] == "Custom" {
 				nm.Predef, nm.W, nm.H = "", op.F[0], op.F[1]
 			} else {
@@ -348,10 +461,12 @@ func run(c Case) *kit.Result {
 			call = func() { err = doc.SetPageSize(document.PageSize(op.S[0])) }
 			nm.Predef = document.PageSize(op.S[0])
 			nm.W, nm.H = dims[nm.Predef][0], dims[nm.Predef][1]
+			nm.Silent = false
 		case "custom":
 			call = func() { err = doc.SetCustomPageSize(op.F[0], op.F[1]) }
 			valid = validCustom(op.F[0], op.F[1])
 			nm.Predef, nm.W, nm.H = "", op.F[0], op.F[1]
+			nm.Silent = false
 			res.Label("custom:" + op.S[0])
 		case "orient":
 			call = func() { err = doc.SetPageOrientation(document.PageOrientation(op.S[0])) }
@@ -408,7 +523,7 @@ func run(c Case) *kit.Result {
 			for j := n0; j < len(res.Failures); j++ {
 				res.Failures[j].Clause = "C12.S4"
 			}
-			if len(res.Failures) > 0 {
+			if settle(n0, got) {
 				return res
 			}
 			continue
@@ -459,9 +574,10 @@ func run(c Case) *kit.Result {
 			res.Fail("C12.S0", "GetPageSettings panicked: %v [%s]", p, st)
 			return res
 		}
+		n0 := len(res.Failures)
 		m.check(res, got, where)
 		m.checkXML(res, doc, where)
-		if len(res.Failures) > 0 {
+		if settle(n0, got) {
 			return res
 		}
 	}
@@ -474,7 +590,7 @@ func run(c Case) *kit.Result {
 	if reopens > 0 {
 		res.Label("reopen")
 	}
-	res.Nontrivial = okOps >= 3 && (rejected > 0 || reopens > 0)
+	res.Nontrivial = okOps >= 3 && (rejected > 0 || reopens > 0 || c.Start != nil)
 	res.Shape = strings.Join(shape, "|")
 	return res
 }
@@ -482,10 +598,12 @@ func run(c Case) *kit.Result {
 func TestC12(t *testing.T) {
 	kit.Main(t, kit.Spec[Case]{
 		ID: "C12", Level: "exploration",
-		Rule: "history of 1-25 page-setting calls (SetPageSettings full struct, SetPageSize, SetCustomPageSize, SetPageOrientation, SetPageMargins, SetHeaderFooterDistance, SetGutterWidth, SetDocGrid, ClearDocGrid, nil settings, unrelated edits, save/reopen) with values across the valid ranges, at the bounds +-0.01, outside, near each predefined size in both aspects (+-0.3..2 mm), negative/zero lengths and invalid orientation strings; reference model = last value per attribute (defaults otherwise), compared after every call with GetPageSettings (1 twip tolerance; 1 mm for near-standard sizes) and with w:pgSz/w:pgMar of the saved part. non-trivial = >=3 accepted setting calls and (>=1 rejected call or >=1 reopen); distinct = distinct sequence of (op kind, accepted/rejected)",
+		Rule: "history of 1-25 page-setting calls (SetPageSettings full struct, SetPageSize, SetCustomPageSize, SetPageOrientation, SetPageMargins, SetHeaderFooterDistance, SetGutterWidth, SetDocGrid, ClearDocGrid, nil settings, unrelated edits, save/reopen) with values across the valid ranges, at the bounds +-0.01, outside, near each predefined size in both aspects (+-0.3..2 mm), negative/zero lengths and invalid orientation strings; the history starts from document.New() (6 in 10) or from a harness-written package of another producer opened with OpenFromMemory (4 in 10) whose body-level w:sectPr has w:pgSz without w:orient (portrait- and landscape-shaped), w:orient agreeing with or contradicting the dimensions, w:code, standard/near-standard/bound/square/arbitrary dimensions in twips, w:pgMar complete, with attributes missing, with negative top/bottom or absent, w:docGrid absent, without type/linePitch or with (negative) charSpace, other sectPr children, children and attributes in another order, no sectPr at all, and optionally an earlier section (paragraph-level sectPr); reference model = last value per attribute, else the opened file's value, else the default (orientation of a file the statement is silent about - wide page without w:orient, contradicting w:orient - is adopted from the first read and must then behave like a set value), compared after open and after every call with GetPageSettings (1 twip tolerance; 1 mm for near-standard sizes) and with w:pgSz/w:pgMar of the saved part (the physical page changes only by calls that name size or orientation). non-trivial = >=3 accepted setting calls and (>=1 rejected call or >=1 reopen or a foreign start); distinct = distinct start class + sequence of (op kind, accepted/rejected)",
 		Gen:  genCase, Run: run, Findings: findings,
-		MustSee: map[string]float64{"custom+landscape": 0.15, "custom:near-standard": 0.05, "custom:near-standard-rotated": 0.05, "custom:bounds": 0.1, "rejected-op": 0.4, "reopen": 0.3},
+		MustSee: map[string]float64{"custom+landscape": 0.15, "custom:near-standard": 0.05, "custom:near-standard-rotated": 0.05, "custom:bounds": 0.1, "rejected-op": 0.4, "reopen": 0.3,
+			"start:foreign": 0.3, "start:wide-no-orient": 0.04, "start:orient-contradicts": 0.03, "start:pgMar-partial": 0.03, "start:no-pgMar": 0.02, "start:no-docGrid": 0.05, "start:docGrid-without-type": 0.02, "start:two-sections": 0.01},
 		Assumptions: []string{"negative lengths in the full-struct SetPageSettings call are not documented either way: the check accepts rejection (nothing may change) or acceptance (values read back as set); an empty grid type in the full struct is not generated (its meaning is undocumented)",
-			"unknown PageSize names are not generated (not documented as invalid)"},
+			"unknown PageSize names are not generated (not documented as invalid)",
+			"opened documents: only the body-level w:sectPr is 'the settings' (an earlier section's sectPr must not be reported or changed instead); page dimensions of the file stay inside the documented 12.7-558.8 mm; a near-standard physical page of a file may be rewritten as the standard size (the documented 1 mm recognition), otherwise the physical page must stay the file's under calls that do not name size or orientation; w:code and other sectPr children are not judged (losslessness is C03/C04)"},
 	})
 }
